@@ -513,14 +513,36 @@ static void op_range_variants()
     uint64_t rem = s.off == ~0ull ? kSize : kSize - s.off;
     for (u128 c : counts(rem, gs)) {
       uintptr_t start = s.off == ~0ull ? 0 : g_base + s.off;
+      // receiver forms: the tainted pointer itself, and a pointer CELL in sandbox memory (tainted_volatile<T*>) holding the same pointer
+      for (int form = 0; form < 2; form++) {
+      if (form == 1 && s.off == 0) continue; // representation 0 is null
+      const uint64_t CELL = 0x6000;
+      const char* fsuf = form ? "-cell" : "";
+      const char* osuf = form ? "(cell)" : "";
+      uint16_t saved_cell = 0;
+      if (form == 1) {
+        uint16_t rep = s.off == ~0ull ? 0 : (uint16_t)s.off;
+        memcpy(&saved_cell, g_ref_mem.data() + CELL, 2);
+        memcpy(g_mem + CELL, &rep, 2);
+        memcpy(g_ref_mem.data() + CELL, &rep, 2); // the cell is part of the reference image while it exists
+      }
+      auto with_recv = [&](auto&& f) {
+        if (form == 0) {
+          auto p = sp<T>(s.off);
+          f(p);
+        } else {
+          auto pp = sp<T*>(CELL);
+          f(*pp);
+        }
+      };
       // copy_and_verify_range: count elements of guest size
       {
-        std::string kase = std::string("cavr|") + elname<T>::n + "|" + std::to_string(s.off) + "|" + hex(c);
+        std::string kase = std::string("cavr") + fsuf + "|" + elname<T>::n + "|" + std::to_string(s.off) + "|" + hex(c);
         if (take(kase)) {
           Verdict v = c == 0 ? MUST_ABORT /* documented: count 0 aborts */ : classify({ { true, start, c * gs } });
-          auto p = sp<T>(s.off);
           bool got_null = false, content_ok = true;
           Out o = guarded([&] {
+           with_recv([&](auto& p) {
             p.copy_and_verify_range(
               [&](std::unique_ptr<T[]> v2) {
                 if (!v2) {
@@ -541,34 +563,38 @@ static void op_range_variants()
                 return 0;
               },
               (size_t)c);
+           });
           });
           if (c == 0 && s.off == ~0ull) v = UNCONSTRAINED; // both "count 0" and "null" apply; any refusal is fine
-          judge(std::string("copy_and_verify_range<") + elname<T>::n + ">", kase, v, o, got_null, nullptr, content_ok && !got_null, "count=" + hex(c));
+          judge(std::string("copy_and_verify_range<") + elname<T>::n + ">" + osuf, kase, v, o, got_null, nullptr, content_ok && !got_null, "count=" + hex(c));
         }
       }
       // copy_and_verify_buffer_address: element count of the pointee type (guest size)
       {
-        std::string kase = std::string("cavba|") + elname<T>::n + "|" + std::to_string(s.off) + "|" + hex(c);
+        std::string kase = std::string("cavba") + fsuf + "|" + elname<T>::n + "|" + std::to_string(s.off) + "|" + hex(c);
         if (take(kase)) {
           Verdict v = c == 0 ? MUST_ABORT : classify({ { true, start, c * gs } });
           if (c == 0 && s.off == ~0ull) v = UNCONSTRAINED;
-          auto p = sp<T>(s.off);
           uintptr_t got = 1;
-          Out o = guarded([&] { got = p.copy_and_verify_buffer_address([](uintptr_t a) { return a; }, (size_t)c); });
-          judge(std::string("copy_and_verify_buffer_address<") + elname<T>::n + ">", kase, v, o, got == 0, nullptr, got == start, "count=" + hex(c));
+          Out o = guarded([&] { with_recv([&](auto& p) { got = p.copy_and_verify_buffer_address([](uintptr_t a) { return a; }, (size_t)c); }); });
+          judge(std::string("copy_and_verify_buffer_address<") + elname<T>::n + ">" + osuf, kase, v, o, got == 0, nullptr, got == start, "count=" + hex(c));
         }
       }
       // unverified_safe_pointer_because: `count` whole elements of the RETURNED pointer's type (application T)
       {
-        std::string kase = std::string("uspb|") + elname<T>::n + "|" + std::to_string(s.off) + "|" + hex(c);
+        std::string kase = std::string("uspb") + fsuf + "|" + elname<T>::n + "|" + std::to_string(s.off) + "|" + hex(c);
         if (take(kase)) {
           Verdict v = classify({ { true, start, c * (u128)sizeof(T) } });
-          auto p = sp<T>(s.off);
           uintptr_t got = 1;
-          Out o = guarded([&] { got = reinterpret_cast<uintptr_t>(p.unverified_safe_pointer_because((size_t)c, "harness")); });
-          judge(std::string("unverified_safe_pointer_because<") + elname<T>::n + ">", kase, v, o, got == 0, nullptr, got == start, "count=" + hex(c) + " sizeof(T)=" + std::to_string(sizeof(T)));
+          Out o = guarded([&] { with_recv([&](auto& p) { got = reinterpret_cast<uintptr_t>(p.unverified_safe_pointer_because((size_t)c, "harness")); }); });
+          judge(std::string("unverified_safe_pointer_because<") + elname<T>::n + ">" + osuf, kase, v, o, got == 0, nullptr, got == start, "count=" + hex(c) + " sizeof(T)=" + std::to_string(sizeof(T)));
         }
       }
+      if (form == 1) {
+        memcpy(g_mem + CELL, &saved_cell, 2);
+        memcpy(g_ref_mem.data() + CELL, &saved_cell, 2);
+      }
+      } // receiver form
     }
   }
 }
@@ -759,7 +785,7 @@ int main(int argc, char** argv)
   };
   if (want({ "memset" })) op_memset();
   if (want({ "memcpy-tt", "memcmp-tt", "memcpy-tr", "memcmp-tr" })) op_memcpy_memcmp();
-  if (want({ "cavr", "cavba", "uspb" })) {
+  if (want({ "cavr", "cavba", "uspb", "cavr-cell", "cavba-cell", "uspb-cell" })) {
     op_range_variants<char>();
     op_range_variants<short>();
     op_range_variants<int>();
